@@ -273,6 +273,9 @@ func c04Cost(c *core.Ctx) {
 				// observed and counted, never a verdict: the statement bounds the time of parsers and
 				// decoders; of accessors it only demands that they return
 				c.Bucket(fmt.Sprintf("cost/accessors-exponent~%.1f(not judged)", exp))
+				if exp > 1.5 {
+					c.Bucket("cost/accessors-superlinear(not judged)/" + f.name)
+				}
 				return
 			}
 			c.Bucket("cost/judged")
